@@ -13,7 +13,8 @@ RULE = ("every set of entries after the leading host operator with, per correlat
         "call in {launch, non-launch runtime call} and at most one device record in {kernel, memcpy, stream sync "
         "on a stream, Event Sync / Context Sync on stream -1}, optionally a host op without correlation and a GPU "
         "annotation without correlation; x every file order (all permutations up to P entries, else identity, "
-        "reversal, rotations); checked after parse_trace_file and after load_traces. non-trivial = contains a "
+        "reversal, rotations) and x padding with metadata entries so that event ids exceed 127 / 255 / 32767 while "
+        "correlation ids stay small; checked after parse_trace_file and after load_traces. non-trivial = contains a "
         "linked pair and a missing partner or a stream -1 sync record")
 ASSUMPTIONS = [
     "well-formed trace: first entry is a host operator; a correlation id occurs at most once per side",
@@ -24,8 +25,8 @@ E0 = 1_700_000_000_000_000
 
 def bounds(tier: str) -> Dict[str, Any]:
     if tier == "quick":
-        return dict(corr_sets=[[3, 4]], P=4, chunk=24)
-    return dict(corr_sets=[[3, 4], [0, 3], [5, 2**31 + 7]], P=5, chunk=24)
+        return dict(corr_sets=[[0, 3]], P=4, pads=[130], pads_few=[], chunk=24)
+    return dict(corr_sets=[[3, 4], [0, 3], [5, 2**31 + 7]], P=5, pads=[130, 300], pads_few=[33000], chunk=24)
 
 
 HOST = [None, "L", "N"]
@@ -80,7 +81,12 @@ def worlds(tier: str, stats: Dict[str, Any]) -> Iterator[Any]:
             for o in orders(len(ents), b["P"]):
                 stats["transitions"] += 1
                 evs = [kineto.cpu_op("aten::root", E0, 100, ext=0)] + [ents[k] for k in o]
-                yield dict(pattern=sig, corr=cs, order=o, events=evs)
+                yield dict(pattern=sig, corr=cs, order=o, pad=0, events=evs)
+            # event ids far larger than the correlation ids (ids are file positions): pad with metadata entries
+            for pad in b["pads"] + (b["pads_few"] if (h1 == "L" and d1 == "K" and not hh and not aa) else []):
+                stats["transitions"] += 1
+                yield dict(pattern=sig, corr=cs, order=list(range(len(ents))), pad=pad,
+                           events=[kineto.cpu_op("aten::root", E0, 100, ext=0)] + ents)
 
 
 def check(world) -> Dict[str, Any]:
@@ -89,6 +95,8 @@ def check(world) -> Dict[str, Any]:
 
     viol: List[Any] = []
     evs = world["events"]
+    if world.get("pad"):
+        evs = evs[:1] + [kineto.meta_event(E0 + k) for k in range(world["pad"])] + evs[1:]
     rows = refmodel.parse_rows(evs)
     exp = refmodel.links(rows)
     assert None not in exp.values()
